@@ -541,6 +541,56 @@ def abandoned_shutdown_script(rnd, sid):
     return sc
 
 
+def token_window_script(rnd, sid):
+    """a sender (SendMessage / SendFor / internal send) gives up in the window between the write loop ACCEPTING its request and
+    handing out the reply token: the script (in-package) holds the await-map lock, so the write loop stops exactly there; the
+    sender's context ends; keep-alives arrive; the lock is released. The write loop must come out of the hand-over whether or
+    not the sender still listens: the request goes out, every keep-alive is acknowledged, later ones too. Go only (the LTS has
+    ONE event, WAccept, for accept + register + hand-over: a write loop stuck inside it cannot be expressed there)."""
+    version = rnd.choice([1, 2])
+    b = cc.SB(sid, version=version)
+    b.connect(cur=rnd.choice([1, 2]), mx=2)
+    tag = rnd.randrange(1, 1 << 20) * 64
+    c = 0
+    if rnd.random() < 0.5:
+        c += 1
+        b.send(c, rnd.choice(REQ_TYPES), 4, tag + c)             # an ordinary request outstanding
+    kid = rnd.randrange(1, 1 << 30)
+    for _ in range(rnd.randrange(1, 3)):
+        b.op("hold_await")
+        c += 1
+        victim = c
+        b.send(victim, rnd.choice(REQ_TYPES), rnd.choice([0, 8, 300]), tag + c, expect=False,
+               api=rnd.choice([None, None, "SendFor", "send"]), ver=1)
+        nka = rnd.randrange(0, 3)
+        for _ in range(nka):
+            kid += 1
+            b.keepalive(kid)
+        b.cancel(victim)                                         # the context ends inside the window
+        b.op("release_await")
+        b.req_index[victim] = b.nseen
+        b.expect()                                               # the accepted request is written all the same
+        for _ in range(nka):
+            b.expect()
+        b.wait(victim)
+        kid += 1
+        b.keepalive(kid)
+        b.expect()
+    c += 1
+    b.send(c, rnd.choice(REQ_TYPES), 5, tag + c)
+    b.reply_to(c, 1023, 3, tag + 900)
+    b.wait(c)
+    kid += 1
+    b.keepalive(kid)
+    b.expect()
+    b.op("drain")
+    b.op("wait_connect")
+    sc = b.script()
+    sc["family"] = "token-window"
+    sc["step_ms"] = 1500
+    return sc
+
+
 def class_scripts(seed, thorough):
     rnd = random.Random(seed + 29)
     out = []
@@ -587,7 +637,7 @@ def run(tier, seed, replay=None):
     if replay:
         rp_data = json.load(open(replay))
         scripts = [rp_data["script"]] if "script" in rp_data else []
-        if scripts and scripts[0].get("family") in ("splitcancel", "timed"):
+        if scripts and scripts[0].get("family") in ("splitcancel", "timed", "token-window"):
             scripts_pred, scripts = scripts, []
         elif scripts and scripts[0].get("family") == "walk":
             walk_scripts, scripts = scripts, []
@@ -656,7 +706,8 @@ def run(tier, seed, replay=None):
     elif not replay and not walks_only:
         rg = random.Random(seed + 13)
         pred_only = ([splitcancel_script(rg, "c07-splitcancel-%d" % i) for i in range(150 if thorough else 30)]
-                     + [timed_script(rg, "c07-timed-%d" % i) for i in range(6 if thorough else 2)])
+                     + [timed_script(rg, "c07-timed-%d" % i) for i in range(6 if thorough else 2)]
+                     + [token_window_script(rg, "c07-tokenwindow-%d" % i) for i in range(120 if thorough else 24)])
     for s, g in cc.run_pred_only(exe, pred_only):
         evals += 1
         dist[s["family"]] = dist.get(s["family"], 0) + 1
